@@ -17,7 +17,7 @@ from harness import core, gen, problems
 from harness import solvermodel as sm
 from harness.core import F
 
-PROPS_MODULES = ["Pdq.Props.C02"]
+PROPS_MODULES = ["Pdq.Props.C02", "Pdq.Props.SqrtRefine"]
 LEVEL = "proof"
 TOL = 1e-9  # relative in the preconditioned metric, after division by the conditioning factor of the step
 
